@@ -42,6 +42,7 @@ const preamble = `(declare-sort Str 0)
 (declare-fun ref.tag (Int) Int)
 (declare-fun ref.root (Int) Int)
 (declare-fun ref.old (Int) Bool)
+(declare-fun ref.time (Int) Int)
 (assert (forall ((b Int) (i Int)) (! (= (ref.root (eref b i)) (ref.root b)) :pattern ((eref b i)))))
 (declare-fun iface.type (Int) Int)
 (assert (forall ((b Int) (i Int)) (! (and (= (eref.base (eref b i)) b) (= (eref.idx (eref b i)) i) (not (= (eref b i) 0)) (= (ref.tag (eref b i)) 1)) :pattern ((eref b i)))))
@@ -192,6 +193,7 @@ func (e *Enc) encodeBody() {
 		if sv, ok := v.(SliceV); ok {
 			e.assumeGlobal(app(SBool, "ref.old", app(SInt, "ref.root", sv.Base)), "parameter "+p.Name()+" was allocated before the call")
 		}
+		e.assumeGlobal(e.olderThanNow(v, p.Type()), "parameter "+p.Name()+" older than the allocation clock")
 	}
 	if fn.Signature.Recv() != nil && len(fn.Params) > 0 {
 		if _, isPtr := fn.Params[0].Type().Underlying().(*types.Pointer); isPtr {
@@ -300,7 +302,9 @@ func (e *Enc) block(b *ssa.BasicBlock) {
 				}
 			}
 		}
+		preClock := sel(e.cur.get(clockFam, arrSort(SInt, SInt)), intLit(0))
 		e.cur = nh
+		e.assume(ge(e.clockNow(), preClock), "the allocation clock never goes back")
 		for _, in := range b.Instrs {
 			p, ok := in.(*ssa.Phi)
 			if !ok {
@@ -309,6 +313,7 @@ func (e *Enc) block(b *ssa.BasicBlock) {
 			v := e.freshValueNoRange(p.Name(), p.Type())
 			e.vals[p] = v
 			e.assume(rangeFact(v, p.Type()), "loop-carried value well typed")
+			e.assume(e.olderThanNow(v, p.Type()), "loop-carried reference was allocated in an earlier iteration or before the loop")
 		}
 		e.assumeInvariants(li)
 	} else {
